@@ -128,7 +128,28 @@ def d1(ctx, prog):
     ldefs_ = astutil.local_defs(f.node)
     ok = len(allocs) == 1 and isinstance(allocs[0].value, ast.Call) and allocs[0].value.args and isinstance(allocs[0].value.args[0], ast.Tuple) and \
         astutil.affine(astutil.expand_locals(allocs[0].value.args[0].elts[1], ldefs_)) == {'interrupt_after_round': 8, '': 8}
-    ctx.check(ok, 'C10-D1', f'{f.key}::width', 'the output does not have 8 * (interrupt_after_round + 1) words', 'output width 8 * (interrupt_after_round + 1)', f.where())
+    if ok:
+        ctx.ok('C10-D1', f'{f.key}::width', 'output width 8 * (interrupt_after_round + 1)', f.where())
+    else:
+        # another shape of the allocation (helpers, a local count): the width is read off the interpreted function
+        wrong, und_ = [], False
+        for target in range(16):
+            try:
+                a_ = bv_schedule(prog, f, target)
+            except bitprov.Abort as e_:
+                wrong.append(f'interrupt_after_round={target}: {e_}')
+                continue
+            if a_ is None:
+                und_ = True
+                break
+            if sorted(a_) != list(range(8 * (target + 1))):
+                wrong.append(f'interrupt_after_round={target}: {len(a_)} words returned, not {8 * (target + 1)}')
+        if wrong:
+            ctx.fail('C10-D1', f'{f.key}::width', f'the output does not have 8 * (interrupt_after_round + 1) words ({wrong[0]})', f.where())
+        elif und_:
+            ctx.undecided('C10-D1', f'{f.key}::width', 'the allocation of the output is not `(n, 8 * (interrupt_after_round + 1))` and the function is not evaluable on provenance cells', f.where())
+        else:
+            ctx.ok('C10-D1', f'{f.key}::width', 'for every interrupt_after_round t in 0..15 the interpreted schedule returns 8 * (t + 1) words', f.where())
 
 
 def d2(ctx, prog):
